@@ -24,7 +24,8 @@ _FORCE_FORM = [None]
 def _form(val, k, puan):
     """the three accepted value forms, rotated (a case may pin the form: case["form"])"""
     import numpy
-    k = k % 7 if _FORCE_FORM[0] is None else _FORCE_FORM[0]
+    k = k % 8 if _FORCE_FORM[0] is None else _FORCE_FORM[0]
+    if k == 7: return bool(val) if val in (0, 1) else int(val)          # True / False are integers too
     if k == 0: return int(val)
     if k == 1: return (int(val), int(val))
     if k == 2: return puan.Bounds(int(val), int(val))
@@ -150,6 +151,7 @@ def _evals(m, box, tok, puan, k0=0):
     shared = {}
     for k, asg in enumerate(box):
         interp = {i: _form(v, k + k0 + j, puan) for j, (i, v) in enumerate(asg.items())}
+        if k % 3 == 2: interp = dict(reversed(list(interp.items())))           # the order of the keys is not part of an interpretation
         if k % 4:                              # runs of calls with ONE dictionary object that the caller updates in place
             shared.clear(); shared.update(interp); arg = shared
         else:
